@@ -68,7 +68,7 @@ def check_impl(ctx, cases):
     ctx.stats["total_ops"] = sum(len(c.ops) for c in cases)
     if ctx.binary_release:
         # same cases on a release build: outcomes must agree with the debug build (no panics either)
-        import copy
+        from common import run_harness
         rel = [Case(c.cid, c.ops, c.dump, c.meta) for c in cases]
         run_harness(ctx.binary_release, rel, "C12rel")
         for c, d in zip(rel, cases):
